@@ -274,6 +274,17 @@ func c06Corrupt(sig string) string {
 	return base64.RawStdEncoding.EncodeToString(b)
 }
 
+// entries of "signatures" that do not decode as map of key ID -> unpadded base64 (F61)
+var c06JunkEntries = map[string]interface{}{
+	"junk-padded":   map[string]interface{}{"ed25519:x": "c2lnbmF0dXJlIQ=="},
+	"junk-notb64":   map[string]interface{}{"ed25519:x": "not base64!!"},
+	"junk-number":   map[string]interface{}{"ed25519:x": 123},
+	"junk-object":   map[string]interface{}{"org.example.newalgo:1": map[string]interface{}{"r": "AA", "s": "BB"}},
+	"junk-string":   "a string",
+	"junk-array":    []interface{}{},
+	"junk-harmless": map[string]interface{}{"ed25519:x": "AAAA"},
+}
+
 // ---------- in-memory key database ----------
 type c06DB struct {
 	keys map[gmsl.PublicKeyLookupRequest]gmsl.PublicKeyLookupResult
@@ -366,6 +377,19 @@ func init() {
 			ts = spec.AsTimestamp(now.Add(8 * 24 * time.Hour))
 			until = spec.AsTimestamp(now.Add(30 * 24 * time.Hour))
 		}
+		// timestamps that do not fit an int64 (F62): far beyond every valid_until_ts
+		if tsmode == "wrap63" {
+			ts = spec.Timestamp(1 << 63)
+			until = spec.AsTimestamp(now.Add(30 * 24 * time.Hour))
+		}
+		if tsmode == "wrap63plus" {
+			ts = spec.Timestamp(1<<63 + 1000000)
+			until = spec.AsTimestamp(now.Add(30 * 24 * time.Hour))
+		}
+		if tsmode == "max" {
+			ts = spec.Timestamp(^uint64(0))
+			until = spec.AsTimestamp(now.Add(30 * 24 * time.Hour))
+		}
 		ev["origin_server_ts"] = uint64(ts)
 		delete(ev, "signatures")
 		c06AddHash(ev)
@@ -379,6 +403,11 @@ func init() {
 		}
 		type pending struct{ server, keyID, kind string }
 		var todo []pending
+		type junk struct {
+			server, keyID string
+			v             interface{}
+		}
+		var junkKeys, junkEntries []junk
 		for _, ent := range args[5:] {
 			i := bytes.IndexByte(ent, '=')
 			if i < 0 {
@@ -416,6 +445,17 @@ func init() {
 			case "algo":
 				put(server, "rsa:1", k1, 0, until)
 				todo = append(todo, pending{server, "rsa:1", "good"})
+			case "goodjunk":
+				// a good signature, and entries under other key IDs of the same server that do not decode (F61)
+				put(server, "ed25519:a", k1, 0, until)
+				todo = append(todo, pending{server, "ed25519:a", "good"})
+				junkKeys = append(junkKeys, junk{server, "ed25519:zz", "not base64!!"}, junk{server, "org.example.newalgo:1", map[string]interface{}{"r": "AA", "s": "BB"}}, junk{server, "ed25519:n", 123})
+			default:
+				// junk-*: the whole entry of the server is something that does not decode as signatures (F61)
+				if v, ok := c06JunkEntries[kind]; ok {
+					put(server, "ed25519:a", k1, 0, until)
+					junkEntries = append(junkEntries, junk{server, "", v})
+				}
 			}
 		}
 		// all signatures are computed over the same unsigned template (signatures are not part of the
@@ -441,6 +481,16 @@ func init() {
 		}
 		for _, s := range sigs {
 			c06PutSig(ev, s.server, s.keyID, s.sig)
+		}
+		for _, jk := range junkKeys {
+			c06PutSig(ev, jk.server, "ed25519:placeholder", "AAAA")
+			m := ev["signatures"].(map[string]interface{})[jk.server].(map[string]interface{})
+			delete(m, "ed25519:placeholder")
+			m[jk.keyID] = jk.v
+		}
+		for _, je := range junkEntries {
+			c06PutSig(ev, je.server, "ed25519:placeholder", "AAAA")
+			ev["signatures"].(map[string]interface{})[je.server] = je.v
 		}
 		raw, _ := json.Marshal(ev)
 		e, _, err := c06Parse(ver, raw, strings.HasSuffix(flag, "+u"))
@@ -495,6 +545,14 @@ func init() {
 		// which names the self-verifier was asked about is not observable from outside; the model's
 		// third line is reproduced from the verdict contract instead: see genC06Pseudo
 		return final, B(out)
+	})
+
+	// [ver; event as received; (out) e.JSON(); lookup; mode; valid servers...]: parsed as untrusted
+	RegisterImpl("C06.verify_wire", func(args [][]byte) ([][]byte, []byte) {
+		inner := append([][]byte{B("any+u"), args[0], args[1]}, args[3:]...)
+		fin, out := c06VerifyImpl(inner)
+		final := append([][]byte{fin[1], args[1], fin[2]}, fin[3:]...)
+		return final, out
 	})
 
 	RegisterProp("C06", genC06)
@@ -705,6 +763,122 @@ func genC06(c *Ctx) {
 	c06GenPseudo(c)
 	c06GenTwin(c)
 	c06GenDupVia(c)
+	c06GenWire(c)
+}
+
+// G. received bytes versus JSON() (hunt C/1): TOP-LEVEL members repeated or under a case variant, in
+// wire orders of more than 12 members.  The PDU struct is filled from the bytes as received, JSON()
+// is their canonical re-sort; the signers demanded must be those of JSON() (what is signed, hashed,
+// stored).  Exact repetitions agree since the sort is stable (F63-sort); a case variant that comes
+// AFTER the exact member on the wire sorts BEFORE it: recorded finding F63.
+func c06GenWire(c *Ctx) {
+	type member struct{ k, v string }
+	type edit struct {
+		name  string
+		extra []member // added members; placed relative to the exact one by `after`
+		after bool
+	}
+	edits := []edit{
+		{"none", nil, true},
+		{"sender-twice-victim-first", []member{{"sender", `"@victim:g.example"`}}, false},
+		{"sender-twice-victim-last", []member{{"sender", `"@victim:g.example"`}}, true},
+		{"type-twice-message-last", []member{{"type", `"m.room.message"`}}, true},
+		{"type-twice-message-first", []member{{"type", `"m.room.message"`}}, false},
+		{"statekey-twice", []member{{"state_key", `"@zed:z.example"`}}, true},
+		{"statekey-twice-first", []member{{"state_key", `"@zed:z.example"`}}, false},
+		{"content-twice", []member{{"content", `{"membership":"leave"}`}}, true},
+		{"content-twice-first", []member{{"content", `{"membership":"leave"}`}}, false},
+		{"Type-after", []member{{"Type", `"m.room.message"`}}, true},
+		{"Type-before", []member{{"Type", `"m.room.message"`}}, false},
+		{"Sender-after", []member{{"Sender", `"@victim:g.example"`}}, true},
+		{"Sender-before", []member{{"Sender", `"@victim:g.example"`}}, false},
+		{"State_key-after", []member{{"State_key", `"@zed:z.example"`}}, true},
+		{"Content-after", []member{{"Content", `{"membership":"leave"}`}}, true},
+		{"Content-before", []member{{"Content", `{"membership":"leave"}`}}, false},
+	}
+	exactOf := func(k string) string { return strings.ToLower(k) }
+	obj := func(ms []member) []byte {
+		var b strings.Builder
+		b.WriteByte('{')
+		for i, m := range ms {
+			if i > 0 {
+				b.WriteByte(',')
+			}
+			b.WriteString(strconv.Quote(m.k) + ":" + m.v)
+		}
+		b.WriteByte('}')
+		return B(b.String())
+	}
+	valids := [][]string{
+		{"a.example", "b.example", "c.example", "g.example", "z.example"},
+		{"a.example", "b.example", "c.example"},
+		{"a.example", "b.example", "g.example", "z.example"},
+	}
+	shuffles := c.Scale(6, 24)
+	for vi, ver := range c06Versions {
+		for ei, ed := range edits {
+			for sh := 0; sh < shuffles; sh++ {
+				if !c.Thorough() && ed.name != "sender-twice-victim-first" && ed.name != "type-twice-message-last" && (vi+ei+sh)%3 != 0 {
+					continue
+				}
+				// an invite of @bob:c.example by @alice:a.example, padded beyond 12 members
+				base := []member{
+					{"auth_events", `[]`}, {"content", `{"membership":"invite"}`}, {"depth", `5`},
+					{"origin", `"a.example"`}, {"origin_server_ts", `1700000000555`}, {"prev_events", `[]`},
+					{"room_id", strconv.Quote(c06RoomID(ver))}, {"sender", `"@alice:a.example"`},
+					{"state_key", `"@bob:c.example"`}, {"type", `"m.room.member"`},
+					{"x1", `1`}, {"x2", `2`}, {"x3", `3`},
+				}
+				if ver == "1" || ver == "2" {
+					base = append(base, member{"event_id", `"$w:b.example"`})
+				}
+				c.Rng.Shuffle(len(base), func(a, b int) { base[a], base[b] = base[b], base[a] })
+				// place the extra members: all before the first member, or all at the end (so before /
+				// after the exact one in wire order), at a random offset among the others
+				var ms []member
+				if ed.after {
+					ms = append(append(ms, base...), ed.extra...)
+				} else {
+					ms = append(append(ms, ed.extra...), base...)
+				}
+				// keep the relative order of extra and exact member, move everything else around
+				for tries := 0; tries < 4; tries++ {
+					i, j := c.Rng.Intn(len(ms)), c.Rng.Intn(len(ms))
+					involved := false
+					for _, x := range ed.extra {
+						if ms[i].k == x.k || ms[j].k == x.k || ms[i].k == exactOf(x.k) || ms[j].k == exactOf(x.k) {
+							involved = true
+						}
+					}
+					if !involved {
+						ms[i], ms[j] = ms[j], ms[i]
+					}
+				}
+				// content hash over the canonical form (no signatures / unsigned / hashes member yet)
+				can := gmsl.CanonicalJSONAssumeValid(obj(ms))
+				sum := sha256.Sum256(can)
+				pos := c.Rng.Intn(len(ms) + 1)
+				h := member{"hashes", `{"sha256":"` + base64.RawStdEncoding.EncodeToString(sum[:]) + `"}`}
+				ms = append(ms[:pos], append([]member{h}, ms[pos:]...)...)
+				wire := obj(ms)
+				if _, _, err := c06Parse(ver, wire, true); err != nil {
+					c.Count("skipped: event does not parse")
+					continue
+				}
+				for wi, valid := range valids {
+					if wi != sh%len(valids) && !c.Thorough() {
+						continue
+					}
+					args := [][]byte{B(ver), wire, B(""), B("real"), B("ok")}
+					for _, s := range valid {
+						args = append(args, B(s))
+					}
+					c.Run("C06.verify_wire", args, "C06.verify_wire", "C06.prop.wire", fmt.Sprintf("wire v=%s edit=%s shuffle=%d valid=%d", ver, ed.name, sh, wi))
+					c.Count("wire/" + ed.name)
+				}
+			}
+		}
+	}
 }
 
 // F. the member join_authorised_via_users_server repeated / under a case variant / with null and
@@ -1146,8 +1320,8 @@ func c06GenKeyring(c *Ctx) {
 					}
 					sort.Strings(ents)
 					flag := "wf"
-					if n%3 == 1 {
-						flag = "wf+u"
+					if n%3 == 1 && (tsmode == "past" || tsmode == "future") {
+						flag = "wf+u" // (integers beyond 2^53 are refused by the untrusted parser from v6 on)
 					}
 					n++
 					args := [][]byte{B(flag), B(ver), ev, B("real"), B(tsmode)}
@@ -1168,6 +1342,35 @@ func c06GenKeyring(c *Ctx) {
 				if di == 0 {
 					run(base, "future", "all good, event dated 8 days ahead")
 					c.Count("keyring/future")
+					// origin_server_ts beyond int64 (F62): as far in the future as it gets
+					for ti, tsmode := range []string{"wrap63", "max", "wrap63plus"} {
+						if !c.Thorough() && ti != (vi+ki)%3 && ki > 2 {
+							continue
+						}
+						run(base, tsmode, "all good, origin_server_ts beyond int64")
+						c.Count("keyring/ts-" + tsmode)
+					}
+					// entries of other servers / other key IDs that do not decode (F61): never matter
+					junkKinds := []string{"junk-padded", "junk-notb64", "junk-number", "junk-object", "junk-string", "junk-array", "junk-harmless"}
+					for ji, jk := range junkKinds {
+						if !c.Thorough() && ji != (vi+ki)%len(junkKinds) && ji != (vi+2*ki+3)%len(junkKinds) {
+							continue
+						}
+						sc := map[string]string{}
+						for _, x := range uniq {
+							sc[x] = "good"
+						}
+						sc["junkhost.example"] = jk
+						run(sc, "past", "all good, unrelated entry "+jk)
+						c.Count("keyring/" + jk)
+					}
+					sc := map[string]string{}
+					for _, x := range uniq {
+						sc[x] = "good"
+					}
+					sc[uniq[(vi+ki)%len(uniq)]] = "goodjunk"
+					run(sc, "past", "all good, one signer with undecodable other key IDs")
+					c.Count("keyring/goodjunk")
 				}
 				// one signer bad
 				for si, s := range uniq {
@@ -1246,6 +1449,21 @@ func c06GenPseudo(c *Ctx) {
 		}
 		return m
 	}
+	// mapping for room key `key` naming `uid`, carrying signature entries of the listed servers (F60)
+	mappingFor := func(key, uid string, signers ...string) map[string]interface{} {
+		m := map[string]interface{}{"user_room_key": key, "user_id": uid}
+		if len(signers) > 0 {
+			sg := map[string]interface{}{}
+			for _, x := range signers {
+				sg[x] = map[string]interface{}{"ed25519:1": "AAAA"}
+			}
+			m["signatures"] = sg
+		}
+		return m
+	}
+	join := func(m map[string]interface{}) map[string]interface{} {
+		return map[string]interface{}{"membership": "join", "mxid_mapping": m}
+	}
 	sig1 := map[string]interface{}{"a.example": map[string]interface{}{"ed25519:1": "AAAA"}}
 	sig2 := map[string]interface{}{"a.example": map[string]interface{}{"ed25519:1": "AAAA"}, "b.example": map[string]interface{}{"ed25519:x": "BBBB"}}
 	cases := []pcase{
@@ -1265,13 +1483,31 @@ func c06GenPseudo(c *Ctx) {
 		{"join-via-undecodable", "m.room.member", c06sp(alice), map[string]interface{}{"membership": "join", "mxid_mapping": mapping(sig1), "join_authorised_via_users_server": "@carol:d.example"}},
 		{"join-via-malformed", "m.room.member", c06sp(alice), map[string]interface{}{"membership": "join", "mxid_mapping": mapping(sig1), "join_authorised_via_users_server": "carol"}},
 	}
+	// F60: who must sign the mapping is decided by user_id, not by the signatures present
+	cases = append(cases,
+		pcase{"join-victim-unsigned", "m.room.member", c06sp(alice), join(mappingFor(alice, "@admin:v.example"))},
+		pcase{"join-victim-signed-by-other", "m.room.member", c06sp(alice), join(mappingFor(alice, "@admin:v.example", "b.example"))},
+		pcase{"join-victim-signed-by-both", "m.room.member", c06sp(alice), join(mappingFor(alice, "@admin:v.example", "b.example", "v.example"))},
+		pcase{"join-victim-signed", "m.room.member", c06sp(alice), join(mappingFor(alice, "@admin:v.example", "v.example"))},
+		pcase{"join-other-room-key", "m.room.member", c06sp(alice), join(mappingFor(bob, "@alice:a.example", "a.example"))},
+		pcase{"join-other-room-key-victim", "m.room.member", c06sp(alice), join(mappingFor(bob, "@admin:v.example", "v.example"))},
+		pcase{"join-empty-room-key", "m.room.member", c06sp(alice), join(mappingFor("", "@alice:a.example", "a.example"))},
+		pcase{"join-user-port", "m.room.member", c06sp(alice), join(mappingFor(alice, "@alice:a.example:8448", "a.example"))},
+		pcase{"join-user-ipv6", "m.room.member", c06sp(alice), join(mappingFor(alice, "@alice:[::1]:8448", "a.example"))},
+		pcase{"join-user-no-sigil", "m.room.member", c06sp(alice), join(mappingFor(alice, "alice:a.example", "a.example"))},
+		pcase{"join-user-no-colon", "m.room.member", c06sp(alice), join(mappingFor(alice, "@alice", "a.example"))},
+		pcase{"join-user-empty-domain", "m.room.member", c06sp(alice), join(mappingFor(alice, "@alice:", "a.example"))},
+		pcase{"join-user-short", "m.room.member", c06sp(alice), join(mappingFor(alice, "@:a", "a"))},
+		pcase{"join-user-empty", "m.room.member", c06sp(alice), join(mappingFor(alice, "", "a.example"))},
+	)
 	signers := [][]string{{}, {"alice"}, {"bob"}, {"alice", "bob"}, {"alice-bad"}, {"alice", "bob-bad"}}
-	valids := [][]string{{}, {"a.example"}, {"b.example"}, {"a.example", "b.example"}}
+	valids := [][]string{{}, {"a.example"}, {"b.example"}, {"a.example", "b.example"}, {"v.example"},
+		{"a.example", "b.example", "v.example", "a.example:8448", "[::1]:8448", ""}}
 	for _, pc := range cases {
 		for _, sg := range signers {
 			for _, vl := range valids {
 				for _, mode := range []string{"ok", "verr"} {
-					if mode == "verr" && len(vl) != 2 {
+					if mode == "verr" && len(vl) < 5 {
 						continue
 					}
 					m := map[string]interface{}{
@@ -1314,7 +1550,7 @@ func c06GenPseudo(c *Ctx) {
 						c.Count("skipped: event does not parse")
 						continue
 					}
-					c.Run("C06.verify_pseudoid", args, "C06.verify_pseudoid", "", fmt.Sprintf("pseudoid %s signers=%v valid=%v mode=%s", pc.name, sg, vl, mode))
+					c.Run("C06.verify_pseudoid", args, "C06.verify_pseudoid", "C06.prop.pseudoid", fmt.Sprintf("pseudoid %s signers=%v valid=%v mode=%s", pc.name, sg, vl, mode))
 					c.Count("pseudoid/" + pc.name)
 				}
 			}
